@@ -105,8 +105,26 @@ def _eligible(side, limit, price):
     return price >= limit if side == "BACK" else price <= limit
 
 
+# the same scenarios at the short end of the ladder, where neighbouring ticks are a penny apart (1.12 / 1.13 / 1.14)
+PM = {2.0: 1.12, 2.1: 1.13, 2.2: 1.14, 1.9: 1.1, 2.3: 1.16, 2.5: 1.2, 1.5: 1.05}
+
+
+def _map_prices(obj):
+    if isinstance(obj, float) or (isinstance(obj, int) and not isinstance(obj, bool)):
+        return PM.get(obj, obj)
+    return obj
+
+
+def _map_levels(levels):
+    return [[PM.get(p, p), z] for p, z in levels]
+
+
 def _run_world(mode, q, orders, seq, isolation, only_strategy=None, variant=None):
-    if variant == "other-line-first":
+    if variant == "low-prices":
+        bk = book_for(mode, q)
+        book0 = {k: {side: _map_levels(lv) for side, lv in v.items()} if k == 1 else v for k, v in bk.items()}
+        spec = simx.MarketSpec(book0=book0)
+    elif variant == "other-line-first":
         # the same selection id is also offered on another handicap line, listed BEFORE the line the orders are on,
         # with nothing queued there: the queue ahead is the one of the order's own runner
         bk = book_for(mode, q)
@@ -132,6 +150,15 @@ def _run_world(mode, q, orders, seq, isolation, only_strategy=None, variant=None
     for n, (side, price, sidx, late) in enumerate(orders):
         if only_strategy is not None and sidx != only_strategy:
             continue
+        if variant == "replaced":
+            # placed far from the market first, then moved to its price by a replace (in flight for 280 ms): the
+            # replacement joins the queue at that price like a new order
+            far = 2.5 if side == "BACK" else 1.5
+            k_ = len(scripts[sidx].get((0, 0), []))
+            scripts[sidx].setdefault((0, 0), []).append(["P", dict(sel=1, side=side, price=far, size=SIZE)])
+            scripts[sidx].setdefault((0, 1), []).append(["R", k_, price])
+            index.append(n)
+            continue
         scripts[sidx].setdefault((0, 1 if late else 0), []).append(["P", dict(sel=1, side=side, price=price, size=SIZE, pers="PERSIST" if variant == "suspended-reopened" else "LAPSE")])
         index.append(n)
     skw = dict(max_order_exposure=None, max_selection_exposure=None, max_live_trade_count=10)
@@ -147,10 +174,14 @@ def _run_world(mode, q, orders, seq, isolation, only_strategy=None, variant=None
 def _one(args):
     mode, q, orders, seq, isolation = args[:5]
     variant = args[5] if len(args) > 5 else None
+    args_case = (mode, q, orders, seq, isolation, variant)
+    if variant == "low-prices":
+        orders = [(sd, PM[p], i, l) for sd, p, i, l in orders]
+        seq = [[e[0], e[1], _map_levels(e[2])] + list(e[3:]) if e[0] in ("T", "TA") else e for e in seq]
     w, h, lines, pts = _run_world(mode, q, orders, seq, isolation, variant=variant)
     out = []
     counts = {"clause:C06.a": 0, "clause:C06.b": 0, "clause:C06.c": 0, "clause:C06.d": 0, "competing_updates": 0, "queue_cleared": 0, "lone_fills": 0, "priority_decisions": 0}
-    case = dict(mode=mode, queue=q, orders=[list(o) for o in orders], updates=seq, isolation=isolation, variant=variant)
+    case = dict(mode=args_case[0], queue=q, orders=[list(o) for o in args_case[2]], updates=args_case[3], isolation=isolation, variant=variant)
     if w.run_exception is not None:
         out.append(core.v("C06.a", (isolation, len(orders), "exception", "-"), "run raised %r" % (w.run_exception,), case))
         return dict(violations=out, counts=counts, outcome=None)
@@ -167,7 +198,9 @@ def _one(args):
     for sidx in (0, 1):
         seqn = sorted(per_s[sidx], key=lambda t: (t[0], t[1]))
         for (late, n), o in zip(seqn, created[sidx]):
-            order_obj[n] = o
+            # "replaced": the order of interest is the replacement (last order of the trade), if it exists yet
+            order_obj[n] = (o.trade.orders[-1] if len(o.trade.orders) > 1 else None) if variant == "replaced" else o
+    order_obj = {n: o for n, o in order_obj.items() if o is not None}
     nk = len(orders)
     ckey = lambda pred, ou: (isolation, min(nk, 3), pred, ou)
     cum = {n: F(0) for n in order_obj}
@@ -178,7 +211,7 @@ def _one(args):
         fills = {}
         for n, o in order_obj.items():
             side, price, sidx, late = orders[n]
-            arrival = 2 if late else 1
+            arrival = 3 if variant == "replaced" else (2 if late else 1)
             fr = snap.get(id(o))
             if fr is None:
                 continue
@@ -290,6 +323,23 @@ def run(tier):
                         continue  # a late order legitimately sees the smaller queue of the book before ITS arrival
                     for seq in vseqs:
                         jobs.append((mode, q, orders, seq, True, variant))
+    # orders that reach their price by a replace (two quiet updates first: the replace is in flight for 280 ms)
+    quiet = ["T", 1, []]
+    for mode in ("BACK", "LAY"):
+        for q in (2, 6):
+            for orders in order_configs(mode)[:14]:
+                if any(o[3] for o in orders) or len({o[2] for o in orders}) > 1:
+                    continue
+                for seq in vseqs:
+                    jobs.append((mode, q, orders, [quiet, quiet] + list(seq), True, "replaced"))
+    # the short end of the ladder (priority between neighbouring penny ticks): unqueued orders, both isolation modes
+    for orders in order_configs("MIXED") + order_configs("BACK")[:20] + order_configs("LAY")[:20]:
+        if any(o[3] for o in orders):
+            continue
+        mode_ = "MIXED" if len({o[0] for o in orders}) == 2 else orders[0][0]
+        for seq in vseqs:
+            for iso in (True, False):
+                jobs.append((mode_, 0, orders, seq, iso, "low-prices"))
     if thorough:
         # length-4 sequences for lone orders and pairs over a reduced option set
         small = [o for o in opts if len(o[2]) <= 1][:5]
